@@ -160,7 +160,9 @@ def run_shard(spec, tier, seed):
     if eof:
         # baseline: the same conversation with the close delivered on its own, after the last burst
         steps = convo.with_final_close(steps)
-    base, _ = observe(role, steps, None, 'pdu', 65536, False)
+    # the baseline has the same configured maximum length as the variants (an implementation may
+    # legitimately treat PDUs longer than what it announced differently): only the delivery differs
+    base, _ = observe(role, steps, None, 'pdu', spec['recv'], False)
     if base['outcome'] != 'end-of-script':
         res.violation('baseline-run-failed', 'C03.baseline',
                       'conversation %s: one-PDU-per-segment run ended with %s %s' % (
@@ -191,7 +193,7 @@ def replay(case):
     role, steps = convo.corpus()[case['conversation']]
     if case.get('eof'):
         steps = convo.with_final_close(steps)
-    base, _ = observe(role, steps, None, 'pdu', 65536, False)
+    base, _ = observe(role, steps, None, 'pdu', case.get('recv', 65536), False)
     check_case(res, case, role, steps, base)
     return res
 
